@@ -14,6 +14,8 @@
      [t |-> "quote", v |-> "quote(1 + 2)", ...]       quoted code: its printed text
      [t |-> "ext",   v |-> "sin", ...]                a built-in (Go) function: its name
    (quotes and built-ins are first-class too: a program can bind, store and compare them)
+   A record may carry further fields (src: the source that makes it; how, ep: its construction
+   history, see OrderLaws); the order reads t and v only.
 
    Cmp(a, b) \in {-1, 0, 1}:
      * type rank first, in the order of object.Type:
